@@ -42,7 +42,10 @@ type SliceV struct {
 	Off, Len, Cap int
 }
 type MapEnt struct{ K, V Val }
-type MapV struct{ Ent []*MapEnt }
+type MapV struct {
+	Ent  []*MapEnt
+	race *Cell // the map object as a whole, for the happens-before race detector (plain Go maps only)
+}
 type IfaceV struct {
 	T types.Type
 	V Val
